@@ -514,6 +514,16 @@ def c16_strings(ctx):
                     for new in dirs + ['self']:
                         do('set_include_dir %s' % hexs(old)); do('hold 2 incdir /'); do('set_tab_width 3'); do('check_held 2'); do('drop_held 2')
                         do('set_include_dir_self' if new == 'self' else 'set_include_dir %s' % hexs(new)); do('get_include_dir')
+                # a read whose file name or text is a string the configuration itself owns (config_error_file(), a setting's
+                # source file, a string value): copied before the previous contents are released
+                do('mkfile %s %s' % (hexs(b'r16bad.cfg'), hexs(b'a = 1;\nb = ;\n')))
+                do('mkfile %s %s' % (hexs(b'r16ok.cfg'), hexs(b'p = "r16ok.cfg";\nt = "q = 5; r = \\"r16ok.cfg\\";";\ng = { h = 1; };\n')))
+                do('read_file %s' % hexs(b'r16bad.cfg')); do('err'); do('read_alias file errfile'); do('err'); do('dump')
+                do('read_alias string errfile'); do('err')
+                do('read_file %s' % hexs(b'r16ok.cfg')); do('set_hook /0 31'); do('set_hook /2/0 32')
+                do('read_alias_src file /2/0'); do('dump'); do('set_hook /1 33')
+                do('read_alias file /0'); do('dump'); do('read_alias string /1'); do('dump'); do('read_alias file /1'); do('err'); do('dump')
+                do('read_alias_src file /0'); do('read_alias string /9')
                 # a member added again under its own name string: overridden (new one last) or refused
                 for ty in (2, 5, 1, 8):
                     do('hold 3 name /0'); do('hold 4 name /1')
@@ -1120,6 +1130,22 @@ def run_C10_all(ctx):
                     return i + 1, 'after config_set_include_func(cfg, NULL) a missing include target is not reported as documented: %s' % outs[i + 1]
         return None
     correspondence(ctx, [reinstate], proj_full, oracle_reinstate, 'C10 default include function', 'reinstate')
+    # the default include function joins include directory and relative path whatever their length: joined lengths
+    # 251..446 (around 255/256, the limit of ONE path component - not of a path), two directory levels
+    def longpaths(impl, rng, stats):
+        H = hexs
+        d1 = b'd' * 120; d2 = d1 + b'/' + b'e' * 120
+        impl.do('init'); impl.do('mkdir ' + H(d1)); impl.do('mkdir ' + H(d2))
+        for flen in (5, 8, 9, 10, 11, 50, 200):
+            name = b'f' * flen + b'.cfg'
+            rel = b'e' * 120 + b'/' + name
+            impl.do('mkfile %s %s' % (H(d2 + b'/' + name), H(b'v%d = %d;\n' % (flen, flen))))
+            for incdir in (d1,):      # (a trailing '/' would rely on the OS treating '//' as '/': not the library's business)
+                impl.do('init'); impl.do('set_include_dir ' + H(incdir))
+                impl.do('read_string ' + H(b'a = 1;\n@include "' + rel + b'"\nb = 2;\n')); impl.do('err'); impl.do('dump')
+            impl.do('init'); impl.do('read_string ' + H(b'a = 1;\n@include "' + d2 + b'/' + name + b'"\nb = 2;\n')); impl.do('err'); impl.do('dump')
+            stats['c10:long-joined-path'] = stats.get('c10:long-joined-path', 0) + 1
+    correspondence(ctx, [longpaths], proj_full, None, 'C10 default include function', 'long-paths')
 
 REGISTRY['C10'] = dict(modules=['LibconfigModel.Properties.C10', 'LibconfigModel.Properties.C10Splice', 'LibconfigModel.Properties.C10SpliceTotal', 'LibconfigModel.Properties.Skeleton', 'LibconfigModel.Properties.C10Prov'], run=run_C10_all, assumptions=COMMON_ASSUMPTIONS)
 def run_C11_all(ctx):
